@@ -6,9 +6,11 @@ import (
 	"context"
 
 	"git.defalsify.org/vise.git/cache"
+	"git.defalsify.org/vise.git/db"
 	"git.defalsify.org/vise.git/db/mem"
 	"git.defalsify.org/vise.git/engine"
 	"git.defalsify.org/vise.git/persist"
+	"git.defalsify.org/vise.git/resource"
 	"git.defalsify.org/vise.git/state"
 	"vharness/app"
 	"vharness/apps"
@@ -69,6 +71,15 @@ func Equiv(v *vrt.Ctx) {
 	enA := engine.NewEngine(cfg, rsA).WithState(stA).WithMemory(caA)
 	store := mem.NewMemDb()
 	store.Connect(ctx, "")
+	if v.Param("shared") == 1 {
+		// the application keeps user data in the store that also holds the
+		// session (one handle for both): every external function writes a
+		// note under USERDATA before it answers
+		side := mem.NewMemDb()
+		side.Connect(ctx, "")
+		useStore(rsA, side)
+		useStore(rsB, store)
+	}
 	for i := 0; i < k; i++ {
 		var in []byte
 		if i > 0 {
@@ -106,6 +117,17 @@ func Equiv(v *vrt.Ctx) {
 		}
 	}
 	v.Cover("C07/history-done")
+}
+
+func useStore(rs *app.Res, st db.Db) {
+	for name, fn := range rs.Funcs {
+		fn := fn
+		rs.Funcs[name] = func(ctx context.Context, sym string, input []byte) (resource.Result, error) {
+			st.SetPrefix(db.DATATYPE_USERDATA)
+			st.Put(ctx, []byte("note"), []byte("n"))
+			return fn(ctx, sym, input)
+		}
+	}
 }
 
 var Harnesses = map[string]func(*vrt.Ctx){
